@@ -2,6 +2,7 @@ from propsdef import KERNEL, CORR, HARNESS
 
 PROP = {
     "uses_generated": True,
+        "diagnose_on_build_failure": [["lake", "env", "lean", "Uncovered.lean"]],
     "needs_binary": True,
     "obligations": [
         "Xt.Props.C04Sites.sites_covered_library",
